@@ -556,7 +556,7 @@ func runReal(env *realEnv, sc realScen, r *mrand.Rand, w *ndWriter, pw *ndWriter
 			obs["records_out"] = len(orecs)
 
 			// ---- call-level trace (EchPipe positions)
-			ps := pipeScen{Accepted: sr.accepted, CutKind: "eof", Crecs: []pipeRec{}, Brecs: []pipeBRec{}}
+			ps := pipeScen{Accepted: sr.accepted, CutKind: "eof", TmoAt: -1, Crecs: []pipeRec{}, Brecs: []pipeBRec{}}
 			if len(crecs) > 0 && len(orecs) > 0 {
 				ps.FirstIn, ps.FirstOut = len(crecs[0].raw), len(orecs[0].raw)
 				total := 0
